@@ -167,6 +167,37 @@ func (tr *Tr) evalCall(env *CEnv, x *CCall) (Value, types.Type) {
 				panic(subsetErr("key(i) outside a map-iteration invariant"))
 			}
 			return Sc{T: "(" + env.loop.enum.pick + " " + tr.evalInt(env, x.Args[0]) + ")"}, env.loop.enum.mtyp.Key()
+		case "allocframe":
+			// allocframe("heap-prefix", ...): every object that existed at function entry has the same contents in the named
+			// heap variables now as it had at entry (the code in between only wrote to objects it allocated itself)
+			reg := tr.g.heapRegistry()
+			var cs []string
+			tr.noteFrameTop("|top@0|")
+			for _, a := range x.Args {
+				pre := a.(*CStr).Val
+				matched := false
+				for _, hn := range sortedKeys(reg) {
+					if hn == pre || strings.HasPrefix(hn, pre+"#") || strings.HasPrefix(hn, pre+".") {
+						matched = true
+						now := tr.heapVar(env.st, hn, reg[hn])
+						old := tr.heapVar(tr.oldStateOr(env), hn, reg[hn])
+						if now == old {
+							continue
+						}
+						tr.fresh++
+						cs = append(cs, fmt.Sprintf("(forall ((r Int)) (! (=> (< r |top@0|) (= (select %s r) (select %s r))) :pattern ((select %s r)) :qid AF%d))", now, old, now, tr.fresh))
+						if tr.assumeMode {
+							if _, has := tr.allocParent[now]; !has {
+								tr.allocParent[now] = old
+							}
+						}
+					}
+				}
+				if !matched {
+					panic(subsetErr("allocframe: unknown heap name " + pre))
+				}
+			}
+			return boolV(sAnd(cs...)), bt
 		case "fresh":
 			v, t := tr.evalC(env, x.Args[0])
 			r := tr.refOf(env, v, t)
@@ -792,8 +823,19 @@ var binderNumRe = regexp.MustCompile(`\?[0-9]+\|`)
 // earlier application implies (equals, for non-Boolean specs) the new one. This is justified by the lemma stable.<name>,
 // which the engine proves separately with the definition revealed (obligation kind "stable").
 func (tr *Tr) relateOpaque(sd *SpecDef, fn string, args []string, atom string, isBool bool) {
-	if strings.Contains(atom, "?") || tr.lemmaProof {
+	if tr.lemmaProof {
 		return
+	}
+	if strings.Contains(atom, "?") {
+		// applications under a binder: only the heap arguments matter for the (quantified) stability relation
+		args = append([]string(nil), args...)
+		srt := sigArgSorts(tr.sc.sigs[fn])
+		for i := range args {
+			if i < len(srt) && !strings.HasPrefix(srt[i], "(Array") && !strings.HasPrefix(args[i], "|top") {
+				args[i] = "_"
+			}
+		}
+		atom = "(" + fn + " " + strings.Join(args, " ") + ")"
 	}
 	insts := tr.opaqueAtoms[fn]
 	for _, old := range insts {
@@ -801,6 +843,12 @@ func (tr *Tr) relateOpaque(sd *SpecDef, fn string, args []string, atom string, i
 			return
 		}
 	}
+	sorts := sigArgSorts(tr.sc.sigs[fn])
+	if len(sorts) != len(args) {
+		tr.opaqueAtoms[fn] = append(insts, opaqueInst{fn: fn, args: args, atom: atom, sd: sd, bool_: isBool})
+		return
+	}
+	isHeap := func(i int) bool { return strings.HasPrefix(sorts[i], "(Array") }
 	for _, old := range insts {
 		if len(old.args) != len(args) {
 			continue
@@ -808,15 +856,18 @@ func (tr *Tr) relateOpaque(sd *SpecDef, fn string, args []string, atom string, i
 		related, differs := true, false
 		var topConds []string
 		for i := range args {
+			if !isHeap(i) {
+				if strings.HasPrefix(args[i], "|top") && strings.HasPrefix(old.args[i], "|top") && args[i] != old.args[i] {
+					// allocation counters: the stability lemma is proved for any later counter value
+					topConds = append(topConds, sLe(old.args[i], args[i]))
+					differs = true
+				}
+				continue
+			}
 			if args[i] == old.args[i] {
 				continue
 			}
 			differs = true
-			if strings.HasPrefix(args[i], "|top") && strings.HasPrefix(old.args[i], "|top") {
-				// allocation counters: the stability lemma is proved for any later counter value
-				topConds = append(topConds, sLe(old.args[i], args[i]))
-				continue
-			}
 			// is old.args[i] an ancestor of args[i] in the allocation-extension lineage?
 			cur, ok := args[i], false
 			for hops := 0; hops < 200; hops++ {
@@ -835,15 +886,88 @@ func (tr *Tr) relateOpaque(sd *SpecDef, fn string, args []string, atom string, i
 				break
 			}
 		}
-		if related && differs {
-			if isBool {
-				tr.sc.fact(sImp(sAnd(append(topConds, old.atom)...), atom))
-			} else {
-				tr.sc.fact(sImp(sAnd(topConds...), sEq(old.atom, atom)))
+		if !related || !differs {
+			continue
+		}
+		// the relation holds for all values of the scalar arguments: quantify over them (except allocation counters)
+		var binders, nargs, oargs []string
+		for i := range args {
+			if isHeap(i) || strings.HasPrefix(args[i], "|top") {
+				nargs = append(nargs, args[i])
+				oargs = append(oargs, old.args[i])
+				continue
 			}
-			tr.stableUsed[sd.Name] = true
-			tr.assumptions["stability of opaque spec "+sd.Name+" under allocation (lemma stable."+sd.Name+", proved by the engine)"] = true
+			v := fmt.Sprintf("|s?%d|", i)
+			binders = append(binders, "("+v+" "+sorts[i]+")")
+			nargs = append(nargs, v)
+			oargs = append(oargs, v)
+		}
+		key := "stab|" + fn + "|" + strings.Join(nargs, " ") + "|" + strings.Join(oargs, " ")
+		if tr.typeFactDone[key] {
+			continue
+		}
+		tr.typeFactDone[key] = true
+		na := "(" + fn + " " + strings.Join(nargs, " ") + ")"
+		oa := "(" + fn + " " + strings.Join(oargs, " ") + ")"
+		var body string
+		if isBool {
+			body = sImp(sAnd(append(topConds, oa)...), na)
+		} else {
+			body = sImp(sAnd(topConds...), sEq(oa, na))
+		}
+		if len(binders) > 0 {
+			tr.fresh++
+			body = fmt.Sprintf("(forall (%s) (! %s :pattern (%s) :qid ST%d))", strings.Join(binders, " "), body, na, tr.fresh)
+		}
+		tr.sc.fact(body)
+		tr.stableUsed[sd.Name] = true
+		tr.assumptions["stability of opaque spec "+sd.Name+" under allocation (lemma stable."+sd.Name+", proved by the engine)"] = true
+	}
+	tr.opaqueAtoms[fn] = append(insts, opaqueInst{fn: fn, args: args, atom: atom, sd: sd, bool_: isBool})
+}
+
+// sigArgSorts splits "(S1 S2 ...) R" into its argument sorts.
+func sigArgSorts(sig string) []string {
+	sig = strings.TrimSpace(sig)
+	if !strings.HasPrefix(sig, "(") {
+		return nil
+	}
+	d, start := 0, -1
+	var out []string
+	for i := 0; i < len(sig); i++ {
+		switch sig[i] {
+		case '(':
+			d++
+			if d == 2 {
+				start = i
+			}
+		case ')':
+			d--
+			if d == 1 && start >= 0 {
+				out = append(out, sig[start:i+1])
+				start = -1
+			}
+			if d == 0 {
+				return out
+			}
+		case ' ':
+		default:
+			if d == 1 {
+				j := i
+				for j < len(sig) && sig[j] != ' ' && sig[j] != ')' {
+					j++
+				}
+				out = append(out, sig[i:j])
+				i = j - 1
+			}
 		}
 	}
-	tr.opaqueAtoms[fn] = append(insts, opaqueInst{args: args, atom: atom, sd: sd, bool_: isBool})
+	return out
+}
+
+func (tr *Tr) oldStateOr(env *CEnv) *State {
+	if tr.oldState != nil {
+		return tr.oldState
+	}
+	return env.old
 }
